@@ -314,3 +314,21 @@ Qed.
 
 Lemma brun_spec0 size ops : brun size [] ops = bspec size [] ops.
 Proof. exact (brun_spec size ops []). Qed.
+
+(* ---------- publisher histories ---------- *)
+Lemma prun_app tab : forall pre os ops, prun tab os (pre ++ ops) = prun tab os pre ++ prun tab (pregs os pre) ops.
+Proof.
+  induction pre as [|o pre IH]; intros os ops; [reflexivity|]. destruct o as [x|x|n]; cbn [app prun pregs fold_left].
+  - apply IH.
+  - apply IH.
+  - rewrite IH, app_assoc. reflexivity.
+Qed.
+
+(** what an event produces depends only on the observers registered at that moment — not on which observers failed
+    earlier, nor on when the others were registered *)
+Lemma prun_event tab os pre n post :
+  prun tab os (pre ++ PEv n :: post)
+  = prun tab os pre
+    ++ publish (S (length (pregs os pre))) (to_obs tab (pregs os pre)) (Ev n)
+    ++ prun tab (pregs os pre) post.
+Proof. rewrite prun_app. reflexivity. Qed.
